@@ -18,7 +18,9 @@
 use crate::engine::{Ctx, Gen, Obs, PanicPolicy, PartCfg};
 use crate::model::*;
 use crate::oracle::{derivative_verdict, ridders, DVerdict};
-use crate::props::c16::{acyclic_gc, build_bulk, gen_grid, limit_work, GridKind, GridSpec, FUNCTIONALS};
+use crate::props::c16::{
+    acyclic_gc, assoc_conditioning, build_bulk, gen_grid, limit_work, GridKind, GridSpec, ASSOC_COND_MAX, FUNCTIONALS,
+};
 use feos::core::{PhaseEquilibrium, ReferenceSystem, State};
 use feos_dft::adsorption::{ExternalPotential, Pore1D, PoreSpecification};
 use feos_dft::interface::PlanarInterface;
@@ -541,6 +543,12 @@ where
     let d = shape.len();
     let exact = is_exact_geometry(kind);
     let akey = if case.spec.has_association() { "assoc" } else { "plain" };
+    // conditioning of the association term (see c16::assoc_conditioning)
+    let acond = assoc_conditioning(&case.spec, t);
+    if acond >= ASSOC_COND_MAX {
+        obs.class("association beyond f64 conditioning (eps_AB/T > 25): skipped");
+        return;
+    }
 
     // ---- width of the perturbation along each axis. Curvilinear axes: the uniform part of a
     // profile is transported by the boundary split of CurvilinearConvolver, which presumes that
@@ -741,7 +749,7 @@ where
         Some(f)
     };
     let fe_own = |e: f64| -> Option<f64> { Some(integ(&profile, f_at(e)?)) };
-    let rtol_assoc = if case.spec.has_association() { TOL_VARIATION_ASSOC } else { TOL_VARIATION_EXACT };
+    let rtol_assoc = if case.spec.has_association() { TOL_VARIATION_ASSOC * acond } else { TOL_VARIATION_EXACT };
     let rl = max_kernel_radius(&dft, t) / lens[0];
     let rtol1 = match kind {
         GridKind::Polar | GridKind::Cylindrical => tol_polar(case.grid.n[0], rl),
@@ -1153,7 +1161,7 @@ pub struct StepCase {
     /// amplitude (k_B T) of a smooth external potential
     #[serde(default)]
     pub vext: f64,
-    /// hard region (external potential = 50 k_B T, where the library freezes the density) beyond 0.8 L
+    /// wall region (external potential = 40 k_B T) beyond 0.8 L
     #[serde(default)]
     pub wall: bool,
     /// > 0: the profile is a Pore1D (LJ 9-3 wall of this energy parameter, K) of the grid's
@@ -1243,6 +1251,10 @@ pub fn check_step(case: &StepCase, obs: &mut Obs) {
     if case.spec.has_association() {
         obs.class("assoc");
     }
+    if bulk.assoc_cond >= ASSOC_COND_MAX {
+        obs.class("association beyond f64 conditioning (eps_AB/T > 25): skipped");
+        return;
+    }
     let grid = case.grid.build();
     let r = grid.axes()[0].grid.clone();
     let n = r.len();
@@ -1251,7 +1263,7 @@ pub fn check_step(case: &StepCase, obs: &mut Obs) {
     let two_pi = 2.0 * std::f64::consts::PI;
     let vext: Array2<f64> = field(nseg, &[n], |s, ix| {
         if case.wall && r[ix[0]] > 0.8 * l {
-            50.0
+            40.0
         } else {
             case.vext * (two_pi * r[ix[0]] / (0.37 * l) + s as f64).cos()
         }
@@ -1263,7 +1275,7 @@ pub fn check_step(case: &StepCase, obs: &mut Obs) {
         obs.class("external potential");
     }
     if case.wall {
-        obs.class("hard region (potential 50 kT)");
+        obs.class("wall region (potential 40 kT)");
     }
     let mut profile = DFTProfile::<Ix1, Model>::new(grid, &bulk.state, Some(vext.clone()), Some(&Density::from_reduced(rho0.clone())), case.lanczos);
     let mut rho0 = rho0;
@@ -1280,7 +1292,11 @@ pub fn check_step(case: &StepCase, obs: &mut Obs) {
             rho_s: 0.08,
         };
         let size = l.clamp(15.0, 40.0);
-        let pore = Pore1D::new(geometry, size * ANGSTROM, pot, Some(n), None);
+        // potential cut off at 40 k_B T: below the level (50) at which the library freezes the
+        // density of a grid point. Frozen points are excluded from the residual but not from the
+        // operator of the Newton solver (rows rho_p dF'/m instead of zero), which has nothing to do
+        // with the second derivatives tested here.
+        let pore = Pore1D::new(geometry, size * ANGSTROM, pot, Some(n), Some(40.0));
         let Ok(mut pp) = pore.initialize(&bulk.state, None, None) else {
             obs.discard("pore initialisation failed");
             return;
@@ -1305,7 +1321,7 @@ pub fn check_step(case: &StepCase, obs: &mut Obs) {
         obs.discard(format!(
             "residual of the initial profile failed [{}{} {}]",
             if case.pore_eps > 0.0 { "Pore1D" } else { "synthetic" },
-            if case.wall && case.pore_eps == 0.0 { ", frozen region" } else { "" },
+            if case.wall && case.pore_eps == 0.0 { ", wall region" } else { "" },
             case.spec.label()
         ));
         return;
@@ -1318,8 +1334,153 @@ pub fn check_step(case: &StepCase, obs: &mut Obs) {
         obs.class("residual of the perturbed profile vanishes: skipped");
         return;
     }
+    // Richardson-extrapolated central difference (h = 1/2, 1/4, 1/8) of the residual along `dir`:
+    // (derivative, norm of the last extrapolation correction)
+    let directional = |p: &mut DFTProfile<Ix1, Model>, dir: &Array2<f64>| -> Option<(Array2<f64>, Array2<f64>)> {
+        // two independent extrapolations (h = 0.4, 0.2, 0.1 and h = 0.25, 0.125, 0.0625): the
+        // error estimate is the largest of the two last extrapolation corrections and of the
+        // difference between the two results. The last correction alone underestimates the error
+        // when a kink of the functional (|lambda|, n3 cut-off, xi^2 clipping; reached where a sharp
+        // wall makes weighted densities change sign) lies inside the stencil.
+        let mut res: Vec<(Array2<f64>, Array2<f64>)> = vec![];
+        for h0 in [0.4, 0.25] {
+            let mut dd: Vec<Array2<f64>> = vec![];
+            for h in [h0, 0.5 * h0, 0.25 * h0] {
+                let rp = res_at(p, &(&rho0 + &(dir * h)))?;
+                let rm = res_at(p, &(&rho0 - &(dir * h)))?;
+                dd.push((rp - rm) / (2.0 * h));
+            }
+            let r1 = (&dd[1] * 4.0 - &dd[0]) / 3.0;
+            let r2 = (&dd[2] * 4.0 - &dd[1]) / 3.0;
+            let rr = (&r2 * 16.0 - &r1) / 15.0;
+            let corr = &rr - &r2;
+            res.push((rr, corr));
+        }
+        let (rb, cb) = res.pop().unwrap();
+        let (ra, ca) = res.pop().unwrap();
+        // element-wise bound |error| <= |corr_a| + |corr_b| + |r_a - r_b|
+        let bound = ca.mapv(f64::abs) + cb.mapv(f64::abs) + (&ra - &rb).mapv(f64::abs);
+        Some((rb, bound))
+    };
+
+    // ---- (a) one product of the library's Newton operator with a known vector. GMRES with a
+    // single iteration returns step = y0 v0, v0 = lhs/|lhs|, and logs gamma_0 = |lhs| and
+    // gamma_1 = s1 gamma_0; with c1 = sqrt(1 - s1^2), beta = gamma_0 c1 / |y0|:
+    //   <v0, A v0> = c1 beta sign(y0),   |A v0 - <v0, A v0> v0| = s1 beta.
+    // Both numbers are compared with the same projections of the numerical Jacobian. No linear
+    // system has to be solved accurately for this comparison (the full Newton equation (b) below
+    // is limited by the true residual of the library's GMRES, which is larger than the logged
+    // one: classical Gram-Schmidt). ----
+    let acond = bulk.assoc_cond;
+    'projection: {
+        let solver1 = DFTSolver::new(None).newton(Some(case.log), Some(1), Some(1), Some(1e-300));
+        let mut p1 = profile.clone();
+        p1.density = Density::from_reduced(rho0.clone());
+        if p1.solve(Some(&solver1), true).is_err() {
+            obs.discard("newton step (one GMRES iteration) failed");
+            break 'projection;
+        }
+        let Some(log1) = p1.solver_log.clone() else { break 'projection };
+        let gm1: Vec<f64> = log1.solver().iter().zip(log1.residual().iter()).filter(|(s, _)| **s == "GMRES").map(|(_, r)| *r).collect();
+        if gm1.len() != 2 || !(gm1[0] > 0.0) {
+            obs.class("projection: unexpected GMRES log: skipped");
+            break 'projection;
+        }
+        let (g0, g1) = (gm1[0], gm1[1]);
+        if !((g0 - lhs_norm).abs() <= 1e-9 * lhs_norm) {
+            obs.inconclusive("projection: logged right-hand side differs from the public residual");
+            break 'projection;
+        }
+        let v0 = &lhs / g0;
+        let step1 = &p1.density.to_reduced() - &rho0;
+        let y0 = (&step1 * &v0).sum();
+        let off = l2(&(&step1 - &(&v0 * y0)));
+        let rel1 = step1.iter().zip(rho0.iter()).map(|(d, r)| (d / r).abs()).fold(0.0, f64::max);
+        if !(off <= 1e-8 * l2(&step1)) || !(rel1 < 0.8) || y0 == 0.0 {
+            obs.discard("projection: step not parallel to the right-hand side (abs() in the solver reflected a density) or too large");
+            break 'projection;
+        }
+        let s1 = (g1 / g0).min(1.0);
+        let c1 = (1.0 - s1 * s1).sqrt();
+        let beta = g0 * c1 / y0.abs();
+        let h00 = c1 * beta * y0.signum();
+        let h10 = s1 * beta;
+        // direction y0 v0 (not the inferred step: abs() in the solver may have reflected entries of
+        // negligible density, which the parallelism test above does not see)
+        let dir1 = &v0 * y0;
+        let Some((r, corr)) = directional(&mut profile, &dir1) else {
+            obs.inconclusive("projection: neighbour residual failed");
+            break 'projection;
+        };
+        let mult = |a: &Array2<f64>| if case.log { a * &rho0 } else { a.clone() };
+        let w = mult(&r) / (-y0);
+        let e = l2(&mult(&corr)) / y0.abs();
+        let h00n = (&w * &v0).sum();
+        let h10n = l2(&(&w - &(&v0 * h00n)));
+        let bn = (h00n * h00n + h10n * h10n).sqrt();
+        obs.count();
+        if !(e <= 1e-6 * bn) {
+            obs.inconclusive("projection: richardson error of the numerical Jacobian");
+            break 'projection;
+        }
+        let d00 = (h00 - h00n).abs() / bn;
+        let d10 = (h10 - h10n).abs() / bn;
+        let variant = if case.pore_eps > 0.0 {
+            "Pore1D"
+        } else if case.wall {
+            "wall region"
+        } else {
+            "smooth"
+        };
+        note(&format!("newton-step projection <v,Av> defect {:?} [{variant}]", kind), d00 / acond);
+        note(&format!("newton-step projection |Av - <v,Av>v| defect {:?} [{variant}]", kind), d10 / acond);
+        note(
+            &format!("newton-step projection defect / tolerance {:?} [{variant}]", kind),
+            d00.max(d10) / (50.0 * e / bn).max(if kind == GridKind::Polar { TOL_PROJECTION_POLAR } else { TOL_PROJECTION } * acond),
+        );
+        note("newton-step projection: richardson error / |Av|", e / bn);
+        obs.class(format!("projection-defect<=1e{}", decade(d00.max(d10))));
+        let tolp = (50.0 * e / bn).max(if kind == GridKind::Polar { TOL_PROJECTION_POLAR } else { TOL_PROJECTION } * acond);
+        obs.ensure(d00 <= tolp && d10 <= tolp, || {
+            format!(
+                "Newton operator [{:?} n={} log={}]: <v,Av> = {h00:e} (library) vs {h00n:e} (numerical Jacobian), |Av - <v,Av>v| = {h10:e} vs {h10n:e}; relative defects {d00:e}, {d10:e} > {tolp:e} (numerical error {:e})",
+                kind,
+                n,
+                case.log,
+                e / bn
+            )
+        });
+        if res0_norm > 1e-6 * rho_norm {
+            obs.nontrivial();
+        }
+    }
+
+    // ---- (b) the full Newton equation ----
+    // The solver returns |rho + step|. The step can only be inferred from the new density if no
+    // entry was reflected, i.e. step > -rho everywhere. To first order step/rho = ln(rho_p/rho) -
+    // coupling, so the logarithmic residual has to be well below one in magnitude at every point
+    // (measured: a reflected point at the axis of a cylindrical pore, ln(rho_p/rho) = -1.23,
+    // inferred step -0.79999 rho, gave a defect of 4e-2).
+    {
+        let log_res = if case.log {
+            Some(res0.clone())
+        } else {
+            profile.density = Density::from_reduced(rho0.clone());
+            profile.residual(true).ok().map(|r| r.0)
+        };
+        let worst = log_res.map(|r| r.iter().fold(0.0f64, |m, x| m.max(x.abs()))).unwrap_or(f64::NAN);
+        if !(worst <= 0.5) {
+            // not a discard: the projections (a) of this case have been judged
+            obs.class(format!(
+                "full Newton equation not evaluated: |ln(rho_p/rho)| > 0.5 somewhere [{}]",
+                if case.pore_eps > 0.0 { "Pore1D" } else if case.wall { "synthetic, wall region" } else { "synthetic" }
+            ));
+            return;
+        }
+    }
     // GMRES stops at tol*1e-2 (absolute, l2): ask for 1e-9 of the right-hand side
-    let tol = 1e-7 * lhs_norm;
+    let gm_rel: f64 = std::env::var("C17_GMRES_REL").ok().and_then(|s| s.parse().ok()).unwrap_or(1e-9);
+    let tol = 1e2 * gm_rel * lhs_norm;
     let solver = DFTSolver::new(None).newton(Some(case.log), Some(1), Some(600), Some(tol));
     let mut p2 = profile.clone();
     p2.density = Density::from_reduced(rho0.clone());
@@ -1352,27 +1513,40 @@ pub fn check_step(case: &StepCase, obs: &mut Obs) {
         obs.discard(format!(
             "newton step larger than 0.8 rho (abs() in the solver may have flipped a sign) [{}{}]",
             if case.pore_eps > 0.0 { "Pore1D" } else { "synthetic" },
-            if case.wall && case.pore_eps == 0.0 { ", frozen region" } else { "" }
+            if case.wall && case.pore_eps == 0.0 { ", wall region" } else { "" }
         ));
         return;
     }
     // numerical directional derivative of the residual along the step (Richardson, h = 1/2, 1/4, 1/8)
-    let mut dd: Vec<Array2<f64>> = vec![];
-    for h in [0.5, 0.25, 0.125] {
-        let (Some(rp), Some(rm)) = (
-            res_at(&mut profile, &(&rho0 + &(&step * h))),
-            res_at(&mut profile, &(&rho0 - &(&step * h))),
-        ) else {
-            obs.inconclusive("neighbour residual failed");
-            return;
-        };
-        dd.push((rp - rm) / (2.0 * h));
+    let Some((rr, corr)) = directional(&mut profile, &step) else {
+        obs.inconclusive("neighbour residual failed");
+        return;
+    };
+    // The library solves  mult * (res + res' step) = 0  in the l2 norm, mult = rho for Newton in
+    // ln(rho) and 1 otherwise: the defect is measured in the same norm. (With the unweighted
+    // logarithmic residual, grid points of negligible density where abs() reflected the update -
+    // true step < -rho, inferred step > -rho - would dominate: measured 0.43-0.54 on three cases.)
+    let weigh = |a: &Array2<f64>| if case.log { a * &rho0 } else { a.clone() };
+    let err = l2(&weigh(&corr)) / lhs_norm;
+    let defect = l2(&weigh(&(&res0 + &rr))) / lhs_norm;
+    if std::env::var("C17_DEBUG").is_ok() {
+        let v = &res0 + &rr;
+        let mut idx: Vec<(usize, usize)> = (0..nseg).flat_map(|s| (0..n).map(move |i| (s, i))).collect();
+        idx.sort_by(|a, b| v[[b.0, b.1]].abs().partial_cmp(&v[[a.0, a.1]].abs()).unwrap());
+        let ext = profile.external_potential.clone();
+        eprintln!("res0_norm/rho_norm = {:e}, defect = {defect:e}", res0_norm / rho_norm);
+        for (s, i) in idx.iter().take(12) {
+            eprintln!(
+                "  seg {s} i {i} r {:.4} v {:e} res0 {:e} rho0 {:e} step/rho0 {:e} V {:.3}",
+                r[*i],
+                v[[*s, *i]],
+                res0[[*s, *i]],
+                rho0[[*s, *i]],
+                step[[*s, *i]] / rho0[[*s, *i]],
+                ext[[*s, *i]]
+            );
+        }
     }
-    let r1 = (&dd[1] * 4.0 - &dd[0]) / 3.0;
-    let r2 = (&dd[2] * 4.0 - &dd[1]) / 3.0;
-    let rr = (&r2 * 16.0 - &r1) / 15.0;
-    let err = l2(&(&rr - &r2)) / res0_norm;
-    let defect = l2(&(&res0 + &rr)) / res0_norm;
     note(&format!("newton-step defect {:?}", kind), if err <= 1e-5 { defect } else { 0.0 });
     note("newton-step richardson error (conclusive cases)", if err <= 1e-5 { err } else { 0.0 });
     obs.count();
@@ -1381,7 +1555,7 @@ pub fn check_step(case: &StepCase, obs: &mut Obs) {
         return;
     }
     obs.class(format!("newton-step-defect<=1e{}", decade(defect)));
-    let tol_step = (50.0 * err).max(TOL_STEP);
+    let tol_step = (50.0 * err).max(TOL_STEP * acond);
     obs.ensure(defect <= tol_step, || {
         format!(
             "Newton equation [{:?} n={} log={}]: |res + d res/d eps (rho + eps*step)| / |res| = {defect:e} (numerical error {err:e}, GMRES residual {:e} of {lhs_norm:e}, {} GMRES iterations)",
@@ -1396,7 +1570,23 @@ pub fn check_step(case: &StepCase, obs: &mut Obs) {
         obs.nontrivial();
     }
 }
-const TOL_STEP: f64 = 1e-6;
+/// full Newton equation: limited by the true residual of the library's GMRES (measured up to
+/// 5.2e-4 of the right-hand side (90 000 cases; typically < 1e-8) while 1e-9..1e-13 is logged, independent of
+/// the requested tolerance; an operator error shows as 4e-2 .. 5e-1)
+const TOL_STEP: f64 = 3e-2;
+/// projections of one operator-vector product (measured on 4000 cases of the pinned tree:
+/// Cartesian and spherical <= 5e-9 (64 000 cases); polar axis, 512 points: <= 5.2e-6, 8.6e-9 at
+/// 1024 points -
+/// the polar mismatch is reproducible and independent of all solver tolerances. One cause was
+/// isolated (PC-SAFT mixture of two associating components in a cylindrical pore): at wall points
+/// the polar transform leaves |n2v| > n2, the effective site density rho0 = n0 (1 - n2v^2/n2^2) is
+/// negative, `zero_density = rho.sum() < EPSILON` (src/association/mod.rs:404) is then true and
+/// the solver skips the real iteration but still performs NDERIV Newton steps in dual numbers:
+/// the energy density is 0 for f64, a one-step value for Dual64 and a two-step value for
+/// HyperDual64, so first and second partial derivatives belong to different functions (2e-4
+/// relative at those points, 3e-7 in the projections).)
+const TOL_PROJECTION: f64 = 3e-7;
+const TOL_PROJECTION_POLAR: f64 = 3e-4;
 
 // =======================================================================================
 // Part D: quadratic convergence of the Newton solver (black box, solver_log)
@@ -1545,10 +1735,11 @@ pub fn check_conv(case: &ConvCase, obs: &mut Obs) {
     // potential >= 50 k_B T): rho_b exp(-(50 + ...)/m) there, a plateau of the sequence that is
     // not related to Newton's convergence. The convergence phase ends at twice that plateau.
     let plateau = newton.iter().map(|x| x.0).fold(f64::MAX, f64::min);
-    // a plateau is accepted as such only if the run stagnates on it (last two residuals within 5 %)
-    let n_it = newton.len();
-    let stagnated = (newton[n_it - 1].0 - newton[n_it - 2].0).abs() <= 0.05 * newton[n_it - 1].0;
-    let floor = if stagnated { NEWTON_FLOOR.max(2.0 * plateau) } else { NEWTON_FLOOR };
+    // The level at which the residual of a particular profile stops decreasing quadratically is
+    // not known a priori (frozen points, true accuracy of GMRES ~1e-6 per step, round-off of the
+    // convolutions): measured as the lowest residual of the sequence. Only residuals at least
+    // 1e3 x above that level (and above 1e-9) are used for the order estimate.
+    let floor = NEWTON_FLOOR.max(1e3 * plateau);
     // observed order of convergence from the last three residuals above the floor of a run that
     // reached the floor: p = ln(r3/r2) / ln(r2/r1); quadratic convergence gives p -> 2, an inexact
     // Jacobian gives p -> 1. Judged only if the three residuals are in the asymptotic regime
@@ -1603,12 +1794,12 @@ fn env(k: &str, d: u32) -> u32 {
 }
 
 pub fn run(ctx: &Ctx) {
-    ctx.set_rule("variation (sampled): grid (Cartesian1/Spherical 64-4096 points, Polar 512-4096, Cartesian2/Periodical2 <= 48 per axis, Cylindrical 512-768 x 8-12, Cartesian3/Periodical3 <= 14 per axis; lengths 10-300 A, curvilinear axes 60-300 A; Lanczos None/1/2; 1-D grids twice as likely) x functional (PcSaft, FMT, gc-PC-SAFT (heterosegmented, acyclic), PeTS, SAFT-VRQ Mie through feos::ResidualModel; 3 FMT versions; 1-3 components) x T (0.5-1.6 T*) x smooth positive profile (tanh interface between 1e-4..0.05 and 0.3..0.85 of the maximum density with different compositions on both sides, or damped oscillation of amplitude 5-40 % around the dense value; per-segment shifts; cosine modulation along the other axes) x perturbation phi_s = w_c rho_ref_s B(r), B a C^3 bump of compact support centred at 0.3-0.7 L (0.3-0.6 L on curvilinear axes) with half-width <= L/4 (exactly zero at both boundaries), rho_ref_s the smallest density on the support, one component or mixed. Non-trivial: the density varies by > 10 % over the support of phi, |int dF/drho phi| > 1e-6 of its scale and the Ridders oracle was conclusive. shapes (lattice, exhaustive over its finite set): 3 one-dimensional geometries x 5-7 sizes x 3 lengths x 6 kernels (Theta, Delta, KR0, KR1, DeltaVec, identity) x 2 Lanczos settings, two overlapping compact fields. newton-step (sampled): 1-D grids 48-400 points (Polar 512), functionals as above (1-2 components), stable bulk states (T/(dp/drho) < 3), profile = bulk x exp(-V) x cosine perturbation of 2-12 % with optional smooth external potential (<= 1 kT) and optional frozen region (V = 50 kT beyond 0.8 L), or a Pore1D (LJ 9-3) profile of the same geometry pre-relaxed by 8-39 Anderson iterations (supercritical); Newton in rho or ln rho; non-trivial if the initial residual exceeds 1e-6 rho and both GMRES and the numerical Jacobian converged. newton-convergence (sampled): LJ 9-3 pores of 15-40 A (slit, cylindrical, spherical), supercritical fluids, Anderson pre-relaxation to 1e-3 then Newton; non-trivial if the order of convergence could be judged. Distinct by hash of the canonical case JSON.");
+    ctx.set_rule("variation (sampled): grid (Cartesian1/Spherical 64-4096 points, Polar 512-4096, Cartesian2/Periodical2 <= 48 per axis, Cylindrical 512-768 x 8-12, Cartesian3/Periodical3 <= 14 per axis; lengths 10-300 A, curvilinear axes 60-300 A; Lanczos None/1/2; 1-D grids twice as likely) x functional (PcSaft, FMT, gc-PC-SAFT (heterosegmented, acyclic), PeTS, SAFT-VRQ Mie through feos::ResidualModel; 3 FMT versions; 1-3 components) x T (0.5-1.6 T*) x smooth positive profile (tanh interface between 1e-4..0.05 and 0.3..0.85 of the maximum density with different compositions on both sides, or damped oscillation of amplitude 5-40 % around the dense value; per-segment shifts; cosine modulation along the other axes) x perturbation phi_s = w_c rho_ref_s B(r), B a C^3 bump of compact support centred at 0.3-0.7 L (0.3-0.6 L on curvilinear axes) with half-width <= L/4 (exactly zero at both boundaries), rho_ref_s the smallest density on the support, one component or mixed. Non-trivial: the density varies by > 10 % over the support of phi, |int dF/drho phi| > 1e-6 of its scale and the Ridders oracle was conclusive. shapes (lattice, exhaustive over its finite set): 3 one-dimensional geometries x 5-7 sizes x 3 lengths x 6 kernels (Theta, Delta, KR0, KR1, DeltaVec, identity) x 2 Lanczos settings, two overlapping compact fields. newton-step (sampled): 1-D grids 48-400 points (Polar 512), functionals as above (1-2 components), stable bulk states (T/(dp/drho) < 3), profile = bulk x exp(-V) x cosine perturbation of 2-12 % with optional smooth external potential (<= 1 kT) and optional wall region (V = 40 kT beyond 0.8 L; below the 50 kT at which the library freezes grid points), or a Pore1D (LJ 9-3) profile of the same geometry pre-relaxed by 8-39 Anderson iterations (supercritical); Newton in rho or ln rho; non-trivial if the initial residual exceeds 1e-6 rho and both GMRES and the numerical Jacobian converged. newton-convergence (sampled): LJ 9-3 pores of 15-40 A (slit, cylindrical, spherical), supercritical fluids, Anderson pre-relaxation to 1e-3 then Newton; non-trivial if the order of convergence could be judged. Distinct by hash of the canonical case JSON.");
     ctx.assume("oracle (1): Ridders (oracle::ridders, three initial steps) in eps of integrate(f[rho + eps phi]) with f from HelmholtzEnergyFunctional::functional_derivative; verdict rule of DESIGN 3.3 with the cancellation-safe scale sum_c sum_s int |dF_c/drho_s phi_s| (contributions evaluated with convolvers planned per contribution) and rtol: Cartesian/periodic 1e-7 (associating models 1e-6: site fractions iterated to 1e-10), plus 1e-13 int |f| for the roundoff of differencing integrals over the whole grid; spherical: max(1e-7, 2e-4 min(1, (128/n)^8)) in the natural measure 4 pi r^2 dr of the sine-transform pair, and with the grid's own weights (shell volumes 4 pi (r^2 + dr^2/12) dr) the same plus the rigorous bound (dr^2/12) 4 pi dr sum |terms| on the difference of the two discretisations; polar axis (quasi-discrete Hankel transform): 0.5 (n < 1024) / 0.05 (n >= 1024) of the sup-norm scale sum_c max |dF_c/drho| int |phi|");
     ctx.assume("curvilinear axes (spherical, polar): perturbations at least 3.5 local grid spacings wide and farther from the outer boundary than the largest kernel radius; profiles exactly flat within (largest kernel radius + 4 cells) of the outer boundary (the boundary value is continued beyond the grid by CurvilinearConvolver and vector weighted densities are taken to vanish there)");
     ctx.assume("oracle (2): |sum_k <psi_k, n_k[rho]> - <Conv^T psi, rho>| <= tol * sum_k |psi_k|_2 |n_k|_2 (norms with the grid's own weights, DFTProfile::integrate): Cartesian/periodic 1e-13; spherical: 1e-10 in the natural measure r^2 and 1e-13 + rigorous bound with the own weights; polar axis 0.02 (n < 1024) / 0.005 (n >= 1024); lattice `shapes`: polar transform pair 2e-3 for n >= 512");
-    ctx.assume("oracle (3) is black-box: the Newton equation solved by the library (GMRES converged to 1e-9 of its right-hand side according to solver_log) is compared with a Richardson-extrapolated central difference of DFTProfile::residual along the step: defect <= max(50 x extrapolation error, 1e-6); no hook in the library is used");
-    ctx.assume("oracle (4): relative Newton residuals r_k <= 1e-3 with converged GMRES of Newton in rho: for runs that reach the floor (1e-9, or twice the plateau on which the sequence stagnates), the order of convergence observed on the last three residuals above the floor, p = ln(r3/r2)/ln(r2/r1), must be >= 1.1 (measured: >= 1.41 on the pinned tree, <= 1.0 typically for an inexact Jacobian; judged only if r1 <= 1e-3, r1 > r2 > r3 and GMRES converged); Newton in ln(rho) is observed only (its update is reflected by abs() where the logarithmic residual is large)");
+    ctx.assume("oracle (3) is black-box (no hook): (a) one product of the library's Newton operator with v0 = rhs/|rhs| is reconstructed from a Newton step with a single GMRES iteration (step = y0 v0, logged gamma_0, gamma_1) and its projections <v0, A v0> and |A v0 - <v0, A v0> v0| are compared with those of two Richardson-extrapolated central differences of DFTProfile::residual (h = 0.4, 0.2, 0.1 and 0.25, 0.125, 0.0625; error estimate = last corrections + difference of the two): relative defect <= max(50 x error estimate, 3e-7 (polar axis 3e-4) x association conditioning); (b) the Newton equation solved by the library (GMRES logged as converged to 1e-9) against the same numerical derivative along the step: defect (in the norm of the library's linear system: weighted with rho for Newton in ln rho) <= max(50 x error estimate, 3e-2 x association conditioning), evaluated only if |ln(rho_p/rho)| <= 0.5 everywhere (otherwise abs() in the solver may have reflected the update and the step cannot be inferred) - limited by the true residual of the library's GMRES (classical Gram-Schmidt; measured up to 5.2e-4 whatever tolerance is requested)");
+    ctx.assume("oracle (4): relative Newton residuals r_k <= 1e-3 with converged GMRES of Newton in rho: for runs that reach their floor (the larger of 1e-9 and 1e3 x the lowest residual of the sequence), the order of convergence observed on the last three residuals above the floor, p = ln(r3/r2)/ln(r2/r1), must be >= 1.1 (measured: >= 1.41 on the pinned tree, <= 1.0 typically for an inexact Jacobian; judged only if r1 <= 1e-3, r1 > r2 > r3 and GMRES converged); Newton in ln(rho) is observed only (its update is reflected by abs() where the logarithmic residual is large)");
 
     let var = PartCfg {
         name: "variation",
